@@ -282,6 +282,8 @@ pub struct Sim {
     pct_change_points: Vec<u64>,
     pub wake_sets: BTreeMap<String, u64>,
     pub record_events: bool,
+    /// descriptors the driver wants observers to see (name, fd)
+    pub watch_fds: Vec<(String, RawFd)>,
 }
 
 fn cstr(s: &str) -> CString {
@@ -370,6 +372,7 @@ impl Sim {
             pct_change_points: pts,
             wake_sets: BTreeMap::new(),
             record_events: true,
+            watch_fds: Vec::new(),
         })
     }
 
